@@ -268,8 +268,10 @@ def fnorm2(v):
 def basic_plane_clauses(r, out, unit_tol=1e-9):
     """real dtype, finite, unit length; returns (ref, normal) as floats or None"""
     items = r[1]
-    if items[0] != "dt:f8":
-        out.append(("normal/real-dtype", "the normal has dtype %s, expected float64" % items[0][3:]))
+    if items[0][3:4] not in ("f", "i", "u"):
+        # "a real unit normal": a real number type -- float64 for every computed normal; a caller's integer axis vector kept
+        # as integers is real too (complex eigenvectors were the defect this clause is about)
+        out.append(("normal/real-dtype", "the normal has dtype %s, expected a real number type" % items[0][3:]))
     if items[1] != "ro":
         out.append(("arrays/read-only", "reference_point / normal of the new plane are writeable"))
     if items[2] != "fresh":
